@@ -278,7 +278,7 @@ def write_evidence(prop, tier, seed, t0, all_obl, jobs, units, known_lines, unde
     fns = []
     assumptions = list(spec.get('assumptions', []))
     trusted = ['CBMC 6.11 (goto-cc, goto-instrument --dfcc, cbmc) and its SAT/SMT back ends',
-               'vx lowering rules R1-R18 (DESIGN.md 3.2): the C text verified is the /repo text rewritten by them',
+               'vx lowering rules R1-R22 (DESIGN.md 3.2 and 0.6): the C text verified is the /repo text rewritten by them',
                'g++/clang++ implement C++17 for the parts lowering drops (templates, references, std::)']
     for (un, fn), r in sorted((jobs or {}).items()):
         f = [x for u in units if u.name == un for x in u.fns if x.name == fn][0]
